@@ -6,6 +6,7 @@ mod auth;
 mod cluster;
 mod life;
 mod mailbox;
+mod outport;
 mod ratelim;
 mod registry;
 mod routing;
@@ -72,6 +73,7 @@ fn main() {
         "worker_enqueue" => worker::run(&args),
         "worker_books" => worker::books(&args),
         "routing" => routing::run(&args),
+        "outport" => outport::run(&args),
         "rpc" => rpc::run(&args),
         "timers" => timers::run(&args),
         "select_listen" => select::listen(&args),
